@@ -105,8 +105,10 @@ def r2(ctx, F):
                     ctx.violation('C18-R2', key, 'no value assigned in arm %s of Performance::%s' % (variant, m.name), m.where())
                     continue
                 v = prov.strip(val, names=set())
-                if as_param_path(v) == (1, ()):
-                    # no-op arm: allowed iff the payload type has no such method
+                rewrapped = v[0] == 'agg' and v[2] == PERF and v[3] == variant and \
+                    as_param_path(prov.strip(v[4].get('0', ('unknown',)), names=set()), through_calls=False) == (1, ('as ' + variant, '0'))
+                if as_param_path(v) == (1, ()) or rewrapped:
+                    # no-op arm (self, or the payload put back into its own variant untouched): allowed iff the payload type has no such method
                     ctx.require(payload_method is None, 'C18-R2', key, 'Performance::%s is a no-op for %s: %sPerformance has no method `%s`' % (
                         m.name, variant, CAP[mode], target_name), m.where(),
                         bad='Performance::%s returns self unchanged for %s although %sPerformance::%s exists: the setting is silently dropped'
@@ -192,6 +194,16 @@ def clamp_constants(F, setter):
     return m, None
 
 
+def _private_accessor(F, f_):
+    """a non-public `&self` method of Difficulty (an accessor of one of its slots)"""
+    if (f_.get('impl_adt') or '') != DIFF or f_.get('trait'):
+        return False
+    g = F.fn(f_.get('path') or '')
+    if g is None or str(g.j.get('vis')).startswith('Public') or len(g.j.get('inputs') or []) != 1:
+        return False
+    return str(g.j['inputs'][0].get('s', '')).startswith('&')
+
+
 def inline_locals(F, v, depth=2):
     """replace calls of local non-setter helper functions by their return value (parameters substituted)"""
     if depth <= 0:
@@ -272,7 +284,8 @@ def r4_r5(ctx, F):
     # inspect(): each public field <- some private field (through non_zero_u64_to_f64 for clock_rate)
     # inspect() may delegate to its `From<Difficulty> for InspectDifficulty` twin (or the other way round): read through that conversion
     rv = prov.inline_all(F, prov.prov_of(insp).return_value(), depth=1, _seen=(insp.path,),
-                         only=lambda f_: f_.get('name') in ('from', 'into') and 'InspectDifficulty' in ((f_.get('path') or '') + (f_.get('impl_self') or '')))
+                         only=lambda f_: (f_.get('name') in ('from', 'into') and 'InspectDifficulty' in ((f_.get('path') or '') + (f_.get('impl_self') or ''))) or _private_accessor(F, f_))
+    rv = prov.inline_all(F, rv, depth=1, _seen=(insp.path,), only=lambda f_: _private_accessor(F, f_))
     rv = prov.strip(rv)
     expose = {}      # public name -> private field
     if rv[0] == 'agg' and rv[2] == INSPECT:
@@ -415,6 +428,7 @@ def r4_r5(ctx, F):
         if g is not None:
             ctx.saw(g)
             grv = prov.prov_of(g).return_value()
+            grv = prov.inline_all(F, grv, depth=1, _seen=(g.path,), only=lambda f_: _private_accessor(F, f_))      # `self.custom_x()` reading the slot
             reads = set()
             for n in prov.walk(grv, limit=400):
                 pp = as_param_path(n)
